@@ -389,9 +389,10 @@ def run_case(desc, V):
             pass
         except sym.ValueBranch:
             raise
-        except TypeError as e:
-            # e.g. sqrt/inv on sympy or array kinds may not be supported by the value type; not an event question
-            if kind in ('sympy', 'ndarray'):
+        except (TypeError, ValueError) as e:
+            # e.g. sqrt/inv on sympy or array kinds may not be supported by the value type, numpy refuses
+            # integer ** -1 in a generated division; not an event question
+            if kind in ('sympy', 'ndarray', 'special'):
                 continue
             raise
         after = kapi.recorder_counts()
